@@ -91,6 +91,8 @@ class CBase58Data(bytes):
     """
     def __new__(cls, s):
         k = decode(s)
+        if len(k) < 5:
+            raise InvalidBase58Error('Base58Check data too short: %d bytes cannot hold a version byte and a checksum' % len(k))
         verbyte, data, check0 = k[0:1], k[1:-4], k[-4:]
         check1 = bitcoin.core.Hash(verbyte + data)[:4]
         if check0 != check1:
